@@ -81,6 +81,16 @@ def read (p : Params) (st : St) : St × ERat :=
     ({ st with stored := st.pool.demand }, st.pool.demand)
   else (st, st.stored)
 
+/-- `standardiser.demand += k` : getter, then setter (only defined on a finite read-back) -/
+def incr (p : Params) (st : St) (k : Rat) : St :=
+  match read p st with
+  | (st', fin x) => write p st' (x + k)
+  | (st', _) => st'
+
+def incrN (p : Params) (st : St) (k : Rat) : Nat → St
+  | 0 => st
+  | n + 1 => incr p (incrN p st k n) k
+
 inductive Op where
   | write (v : Rat)
   | read
